@@ -9,6 +9,7 @@ import (
 	"time"
 
 	corev1 "k8s.io/api/core/v1"
+	"k8s.io/apimachinery/pkg/util/intstr"
 
 	v1 "github.com/DataDog/extendeddaemonset/api/v1alpha1"
 
@@ -1206,18 +1207,43 @@ func (m *Monitors) onEDS(inv *simapi.Invocation, out kit.Outcome) {
 					targeted++
 				}
 			}
-			if d := int(v.EDS.Status.Desired); d > targeted {
-				targeted = d // the count the controller itself last published for its targeted nodes
+			// the reconcile's own node listings may be older than the store (nested schedules): take the
+			// larger of the two counts
+			listed := map[string]*corev1.Node{}
+			for _, c := range inv.Calls {
+				if c.Err == nil && c.Verb == "list" && c.Kind == simapi.KindNode {
+					for _, o := range c.Objs {
+						if n, ok := o.(*corev1.Node); ok {
+							listed[n.Name] = n
+						}
+					}
+				}
+			}
+			inView := 0
+			for _, n := range listed {
+				if oracle.Eligible(n, &tpl.Spec) {
+					inView++
+				}
+			}
+			if inView > targeted {
+				targeted = inView
 			}
 			want, ok := kit.Resolve(v.EDS.Spec.Strategy.Canary.Replicas, targeted)
-			// percent replicas: the base "nodes the ExtendedDaemonSet targets" is taken generously (all
-			// currently eligible nodes), so only a list that exceeds even that resolution is judged
+			// percent replicas: the base is the number of nodes the ExtendedDaemonSet targets, i.e. the nodes
+			// eligible for its template (in the store now or in what the reconcile listed, whichever is larger)
 			if ok && len(written.Status.Canary.Nodes) > want {
-				m.viol("C04", "C04.list-size", nil, inv, map[string]any{"nodes": written.Status.Canary.Nodes, "replicas": want})
+				m.viol("C04", "C04.list-size", map[string]string{"replicas": replicasKind(v.EDS.Spec.Strategy.Canary.Replicas)}, inv, map[string]any{"nodes": written.Status.Canary.Nodes, "resolved-replicas": want, "targeted-nodes": targeted, "status.desired-as-read": v.EDS.Status.Desired, "replicas": v.EDS.Spec.Strategy.Canary.Replicas.String()})
 			}
 		}
 	}
 	m.rollbackCheck(inv, out, &v, upToDate, activeBefore, written, specWrite)
+}
+
+func replicasKind(r *intstr.IntOrString) string {
+	if r != nil && r.Type == intstr.String {
+		return "percent"
+	}
+	return "number"
 }
 
 func contains(xs []string, x string) bool {
